@@ -9,7 +9,7 @@ EXTENDS TVCommon, Score, LimitSort
 VARIABLES l, sizes, memoD, memoJ, memoS, memoG, viol, drift, cnt
 vars == <<l, sizes, memoD, memoJ, memoS, memoG, viol, drift, cnt>>
 
-PropIds == {"C01","C05","C09","C15","C16","C17","C19","C06","ood","L2"}
+PropIds == {"C01","C03","C05","C09","C15","C16","C17","C19","C06","ood","L2"}
 E == Rec[l]
 Res(f, d, n) == [f |-> f, d |-> d, n |-> n]
 Bump(c, names) ==        \* each property is counted at most once per event: cnt[p] = events that exercised p
@@ -170,6 +170,28 @@ TvGate == /\ E.op = "gate" /\ ~Has(E, "unsupported") /\ Apply(GateChecks)
                          ELSE [memoG EXCEPT !.maxFail = IF @ = <<>> \/ FracLeq(@[1], GateSim) THEN <<GateSim>> ELSE @]
           /\ UNCHANGED <<sizes, memoD, memoJ, memoS>>
 
+\* the real word_match on literal words with arbitrary stems (GEN_WordMatch.tla) or on words tokenised by the crate
+WmChecks ==
+  LET rt == IF Has(E, "rt") THEN E.rt ELSE E.rtok
+      qt == IF Has(E, "qt") THEN E.qt ELSE E.qtok
+      ri == IF Has(E, "ri") THEN E.ri + 1 ELSE 1
+      qi == IF Has(E, "qi") THEN E.qi + 1 ELSE 1
+  IN IF Has(E, "panic") THEN Res(<<Finding(l, "C01", "word_match panicked")>>, <<>>, <<"C01">>)
+     ELSE IF ri > Len(rt.words) \/ qi > Len(qt.words) THEN Res(<<>>, <<>>, <<>>)
+     ELSE
+     LET m  == WordMatch(rt, rt.words[ri], qt, qt.words[qi])
+         rw == WChars(rt, rt.words[ri])
+         qw == WChars(qt, qt.words[qi])
+     IN Res(
+          \* C03 at word level: an unfinished query word that is a prefix of the record word matches it, whatever the stems
+          (IF ~qt.words[qi].fin /\ IsPrefixOf(qw, rw) /\ Len(qw) >= 1
+             THEN Check(E.m # <<>>, l, "C03", "word_match rejects a typed prefix of the record word") ELSE <<>>)
+          \o AccFindings(E, l),
+          Check((E.m = <<>>) <=> (m = <<>>), l, "L2", "word_match verdict differs from WordMatch.tla")
+          \o (IF E.m # <<>> /\ m # <<>> THEN Check(SameM(E.m[1].r, m[1].r) /\ SameM(E.m[1].q, m[1].q), l, "L2", "word match differs from WordMatch.tla") ELSE <<>>),
+          <<"C03", "C19", "C01">>)
+TvWm == /\ E.op = "wm" /\ ~Has(E, "unsupported") /\ Apply(WmChecks) /\ UNCHANGED <<sizes, memoD, memoJ, memoS, memoG>>
+
 TvDl  == /\ E.op = "dl" /\ ~Has(E, "unsupported")
          /\ Apply(DlChecks)
          /\ sizes' = IF Has(E, "size") THEN Put(sizes, E.inst, E.size) ELSE [x \in DOMAIN sizes \ {E.inst} |-> sizes[x]]
@@ -199,7 +221,7 @@ TvCase == /\ E.op = "case"
 TvOther == /\ (E.op \in {"header", "chartable", "endcase"} \/ Has(E, "unsupported"))
            /\ UNCHANGED <<sizes, memoD, memoJ, memoS, memoG, viol, drift, cnt>>
 
-TvNext == l <= NRec /\ l' = l + 1 /\ (TvDl \/ TvJac \/ TvLs \/ TvTok \/ TvTm \/ TvGate \/ TvNew \/ TvCase \/ TvOther)
+TvNext == l <= NRec /\ l' = l + 1 /\ (TvDl \/ TvJac \/ TvLs \/ TvTok \/ TvTm \/ TvWm \/ TvGate \/ TvNew \/ TvCase \/ TvOther)
 TvInit == l = 1 /\ memoG = [minPass |-> <<>>, maxFail |-> <<>>] /\ sizes = <<>> /\ memoD = <<>> /\ memoJ = <<>> /\ memoS = <<>> /\ viol = <<>> /\ drift = <<>>
           /\ cnt = [p \in PropIds |-> 0]
 TvSpec == TvInit /\ [][TvNext]_vars
